@@ -60,13 +60,14 @@ FILTERS = [
     None, None,
     A("marked"), ("not", A("marked")), A("marker", "x|grapes"), A("comment", "todo|bug"), A("comment", "^$"), A("m", "GET|POST"),
     A("m", "^P"), A("c", 200), A("c", 404), A("http"), ("or", [A("tcp"), A("udp")]), A("dns"), A("q"), A("s"), A("e"), ("not", A("e")),
-    ("and", [A("http"), ("not", A("c", 404))]), A("d", "example"), A("all"), ("or", [A("marked"), A("s")]),
+    ("and", [A("http"), ("not", A("c", 404))]), A("all"), ("or", [A("marked"), A("s")]),
     ("and", [("not", A("marked")), ("or", [A("q"), A("tcp")])]),
 ]
 
 
-def srender(ast):
-    """Conservative spelling (blanks everywhere, explicit connectives) so that C42's parser findings cannot interfere."""
+def srender(ast, top=True):
+    """Conservative spelling (blanks around every token, explicit connectives) so that C42's parser findings cannot
+    interfere; parentheses only where precedence needs them (each level costs the real parser ~0.1 s)."""
     k = ast[0]
     if k == "leaf":
         op, arg = ast[1], ast[2]
@@ -76,8 +77,27 @@ def srender(ast):
             return f"~{op} {arg}"
         return f'~{op} "{arg}"'
     if k == "not":
-        return f"! ( {srender(ast[1])} )"
-    return "( " + (" & " if k == "and" else " | ").join(srender(c) for c in ast[1]) + " )"
+        inner = srender(ast[1], False)
+        return f"! {inner}" if ast[1][0] == "leaf" else f"! ( {inner} )"
+    parts = []
+    for c in ast[1]:
+        t = srender(c, False)
+        if c[0] in ("and", "or") and c[0] != k and not (k == "or" and c[0] == "and"):
+            t = f"( {t} )"
+        parts.append(t)
+    return (" & " if k == "and" else " | ").join(parts)
+
+
+_PARSED = {}
+
+
+def parsed_filter(text):
+    """Parse each catalogue filter once per process (the parse itself is C42's subject, not C43's)."""
+    if text not in _PARSED:
+        from mitmproxy import flowfilter
+
+        _PARSED[text] = flowfilter.parse(text)
+    return _PARSED[text]
 
 
 # ---------------------------------------------------------------------------------------------
@@ -90,6 +110,8 @@ def make_pool(r):
         f = gen.gen_facts(r, t)
         if f["type"] in ("tcp", "udp"):
             f["dst"] = (r.choice(["example.com", "10.0.0.7", "cdn-1.test", "192.168.0.12"]), r.choice([80, 443, 8080]))
+        if f["src"] is None:
+            f["src"] = ("127.0.0.1", 51234)  # Flow.copy() (duplicate) needs a peer address
         f["ts"] = 1000.0 + r.randint(0, 7)
         f["live"] = r.random() < 0.3
         if f["type"] == "http":
@@ -261,6 +283,8 @@ def run_case(ctx):
     model = ref.ViewModel()
     stale = {}  # id -> set(orders) whose cached key may be outdated (history predicate for M_STALE)
     lastkey = {}  # id -> {order: key at last notification}
+    keyhist = {}  # id -> {order: every key the flow had at a notification since it entered the store}
+    touched = set()  # ids with an add/update notification since the view was last rebuilt from the store (history predicate for M_MARKED)
     hist = []
     feats = {"ops": set(), "orders": set(), "marked_only": False, "reversed": False, "filters": 0, "keychange": False, "ctl": False, "nonempty": False}
     n_ops = r.choice([5, 10, 20, 30, 45, 60])
@@ -281,7 +305,9 @@ def run_case(ctx):
                     if i not in model.store:
                         model.store[i] = facts[i]
                         lastkey[i] = {o: ref.sort_key(facts[i], o) for o in ref.ORDERS}
+                        keyhist[i] = {o: [k] for o, k in lastkey[i].items()}
                         stale[i] = set()
+                        touched.add(i)
                 desc = f"add {len(ids)}"
             elif op in ("mutate_update", "update"):
                 ids = r.sample(list(flows), r.randint(1, 3))
@@ -293,20 +319,23 @@ def run_case(ctx):
                         sync(flows[i], facts[i])
                         if i in model.store and was != model.matches(facts[i]):
                             feats["keychange"] = True
+                v.update([flows[i] for i in ids])
+                still = {x.id for x in v}
                 for i in ids:
                     if i in model.store:
+                        # the view refreshes the selected order's cached key only for a flow that is shown and stays shown
+                        refreshed = i in before and i in still
                         for o in ref.ORDERS:
                             k = ref.sort_key(facts[i], o)
                             if k != lastkey[i][o]:
                                 feats["keychange"] = True
-                                if o == model.order and i in before:
-                                    stale[i].discard(o)  # the view refreshes the selected order's key of a shown flow
-                                else:
-                                    stale[i].add(o)
                                 lastkey[i][o] = k
-                            elif o == model.order and i in before:
+                                keyhist[i][o].append(k)
+                                if not (o == model.order and refreshed):
+                                    stale[i].add(o)
+                            if o == model.order and refreshed:
                                 stale[i].discard(o)
-                v.update([flows[i] for i in ids])
+                        touched.add(i)
                 updated_ids = [i for i in ids if i in model.store]
                 desc = f"{op} {','.join(labels)}"
             elif op == "remove":
@@ -325,11 +354,15 @@ def run_case(ctx):
                 feats["filters"] += 1
                 feats["ctl"] = True
                 text = srender(flt) if flt else ""
-                if r.random() < 0.3:
+                x = r.random()
+                if x < 0.1:
                     tctx.configure(v, view_filter=text or None)
-                else:
+                elif x < 0.2:
                     v.set_filter_cmd(text)
+                else:
+                    v.set_filter(parsed_filter(text) if text else None)
                 model.filter = flt
+                touched.clear()
                 desc = f"set_filter {text!r}"
             elif op == "set_order":
                 o = r.choice(ref.ORDERS)
@@ -353,13 +386,16 @@ def run_case(ctx):
                 feats["ctl"] = True
                 v.toggle_marked()
                 model.show_marked = not model.show_marked
+                touched.clear()
             elif op == "clear":
                 v.clear()
                 model.store.clear()
                 stale.clear()
                 lastkey.clear()
+                touched.clear()
             elif op == "clear_not_marked":
                 v.clear_not_marked()
+                touched.clear()
                 for i in [i for i, f in model.store.items() if not f["marked"]]:
                     del model.store[i]
                     stale.pop(i, None)
@@ -394,7 +430,9 @@ def run_case(ctx):
                         flows[fl.id] = fl
                         model.store[fl.id] = f2
                         lastkey[fl.id] = {o: ref.sort_key(f2, o) for o in ref.ORDERS}
+                        keyhist[fl.id] = {o: [k] for o, k in lastkey[fl.id].items()}
                         stale[fl.id] = set()
+                        touched.add(fl.id)
             elif op == "settings":
                 stored = list(v._store.values())
                 if stored:
@@ -431,7 +469,9 @@ def run_case(ctx):
                 extra = set(after) - exp
                 missing = exp - set(after)
                 mech = None
-                if (model.show_marked and not missing and extra <= set(model.store)
+                # explained only if every surplus flow is an unmarked, filter-matching flow that was added/updated after the
+                # view was last rebuilt (a rebuild honours marked-only mode, add()/update() do not)
+                if (model.show_marked and not missing and extra <= set(model.store) and extra <= touched
                         and all(not facts[i]["marked"] and (model.filter is None or fref.ev(model.filter, facts[i])) for i in extra)):
                     mech = M_MARKED
                 ctx.violation("membership-differs", wit(extra=[brief(facts.get(i)) for i in extra], missing=[brief(facts.get(i)) for i in missing]), mech)
@@ -439,7 +479,10 @@ def run_case(ctx):
             ctx.count("order")
             listed = [i for i in after if i in model.store]
             if not model.is_sorted(listed):
-                mech = M_STALE if any(model.order in stale.get(i, ()) for i in listed) else None
+                # explained only if the list is sorted once every flow whose key changed while it was hidden or another
+                # order was selected is allowed to sit at one of its earlier keys
+                cands = [sorted(set(keyhist[i][model.order])) if model.order in stale.get(i, ()) else [model.key(i)] for i in listed]
+                mech = M_STALE if sortable_with(cands, model.reversed) else None
                 ctx.violation("not-sorted", wit(keys=[model.key(i) for i in listed][:20], possibly_stale=[model.order in stale.get(i, ()) for i in listed][:20]), mech)
 
             ctx.count("focus")
@@ -463,6 +506,19 @@ def run_case(ctx):
     sig = (tuple(sorted(feats["ops"])), tuple(sorted(feats["orders"])), feats["marked_only"], feats["reversed"], min(feats["filters"], 3), n_ops)
     nontrivial = feats["keychange"] and feats["ctl"] and feats["nonempty"]
     ctx.case(sig, nontrivial, {"history": hist[:40], "final_view_len": len(after) if n_ops else 0})
+
+
+def sortable_with(cands, reverse):
+    """Can one key be picked per position (from its sorted candidate list) so that the sequence is monotone?"""
+    if reverse:
+        cands = cands[::-1]
+    cur = None
+    for c in cands:
+        pick = next((k for k in c if cur is None or k >= cur), None)
+        if pick is None:
+            return False
+        cur = pick
+    return True
 
 
 def brief(f):
